@@ -96,13 +96,17 @@ func drawMappingSpec(r *engine.PRNG, n *engine.Node) {
 		pb := m.ToProto()
 		n.ByGam = true
 		n.Gamma = engine.F64(pb.Gamma)
-		switch r.Pick(3, 3, 2) {
+		switch r.Pick(3, 3, 2, 1, 1) {
 		case 0:
 			n.Offset = engine.F64(pb.IndexOffset)
 		case 1:
 			n.Offset = engine.F64(float64(r.Range(-1000, 1000)) + r.Float64())
-		default:
+		case 2:
 			n.Offset = engine.F64(float64(r.Range(-100000, 100000)))
+		case 3:
+			n.Offset = 0
+		default: // a rounding residue instead of an exact zero
+			n.Offset = engine.F64([]float64{0.1 + 0.2 - 0.3, -1e-13, 1e-15, 4e-13}[r.Intn(4)])
 		}
 	}
 }
@@ -378,7 +382,9 @@ func GenFleet(prof *fleetProfile) func(r *engine.PRNG, run int, tier string) *en
 				o := *shared
 				pb := g.nodes[0].m.ToProto()
 				o.ByGam, o.Gamma = true, engine.F64(pb.Gamma)
-				switch r.Pick(4, 3, 3) {
+				switch r.Pick(3, 3, 3, 2) {
+				case 3: // within the equality tolerance of 0: must be equal to an exact 0 in BOTH directions
+					o.Offset = engine.F64([]float64{0.1 + 0.2 - 0.3, -1e-13, 1e-15, 4e-13, 0}[r.Intn(5)])
 				case 0:
 					o.Offset = 0
 				case 1:
